@@ -11,7 +11,7 @@ CHECKS = {
  "C01": ("exploration",
          "TLA+ specifications as generator (Combinators.tla builder machine supplies the compositions, Elementary.tla the boundary sets and their kink/smooth classification; TLC run at check time); round-trip identity judged on the real code in float64 with conditioning-scaled tolerances",
          "The oracle is the property's own identity (inverse(transform(x)) = x, transform(inverse(y)) = y, the '...and_log_det' point equals the plain one), which no specification can compute for transcendental maps; the specifications contribute the space: every leaf class x parameter regime with its boundary-directed inputs (spline interval ends / knots / float neighbours, +-max_val, +-tanh(max_val), arctanh singularities, planar hyperplane, large magnitudes), TLC-enumerated compositions with real leaves filled in (only onto-R leaves under an Invert), and the bijection of every flow factory x invert x condition x transformer. The exact-integer composite part is model-checked under C08.",
-         "float64; tolerance 256 eps (1+|x|+|y|) cond(J) with J the autodiff Jacobian; bisection-inverted maps use the per-coordinate error recursion (factor 4); points with cond(J) > 1e11 or overflowing images carry no promise.",
+         "float64 and, for the leaf and flow population, float32 (workers started without x64; points up to 100, cond(J) <= 1e3); tolerance 256 eps (1+|x|+|y|) cond(J) with J the forward-mode autodiff Jacobian; bisection-inverted maps use the per-coordinate error recursion (factor 4) and are judged in float64 only; points with cond(J) > 1e11 or overflowing images carry no promise. Points given as integer-dtype arrays must give the values of the float call. A generated program whose evaluation kills the worker process (XLA) is skipped with a note; more than 2 % is a machinery failure.",
          "DESIGN.md 5 (C01)"),
  "C02": ("exploration",
          "TLA+ specifications as generator (as C01); oracle = slogdet of the autodiff Jacobian of the plain transform in float64, one-sided at points the specification classifies as kinks, finite differences as tie-breaker where autodiff through clip/where is ambiguous",
@@ -51,7 +51,7 @@ CHECKS = {
  "C18": ("exploration",
          "TLA+ specifications as generator (Elementary.tla guards give the boundary set of every leaf); oracle = finiteness of log_prob and of its input and parameter gradients on the real code",
          "Every population entry in both orientations inside Transformed(StandardNormal, .) at the boundary-directed points: log_prob must be a number or -inf, never NaN; where it is finite, jax.grad w.r.t. the input and eqx.filter_grad w.r.t. every parameter must be finite.",
-         "The orientation whose log_prob runs the bisection inverter is checked for the value clause only (reverse-mode differentiation through lax.while_loop is refused by JAX by design).",
+         "The orientation whose log_prob runs the bisection inverter is checked for the value clause only (reverse-mode differentiation through lax.while_loop is refused by JAX by design). Run in float64 and again in float32 (workers without x64). -inf at an isolated point whose float neighbours on both sides have finite log_prob counts as a masked NaN.",
          "DESIGN.md 5 (C18)"),
  "C09": ("model_checking",
          "TLA+ specifications of the rank-mask composition, the sequential inverse and the block sign algebra (Masks.tla, BlockMasks.tla) model-checked with TLC over the whole configuration grid; every configuration TLC prints is built for real and its Jacobian patterns / masks compared with TLC's reach sets and mask matrices",
